@@ -2190,8 +2190,8 @@ def _iter_maxmin(M, fr, n, a):
     best = xs[0]
     for x in xs[1:]:
         xv = x; bv = best
-        while isinstance(xv, Ref): xv = M.deref(xv)
-        while isinstance(bv, Ref): bv = M.deref(bv)
+        while isinstance(xv, Ref) or (isinstance(xv, Agg) and len(xv.f) == 1): xv = M.deref(xv) if isinstance(xv, Ref) else xv.f[0]       # newtypes over an integer (NodeIndex) order like the integer
+        while isinstance(bv, Ref) or (isinstance(bv, Agg) and len(bv.f) == 1): bv = M.deref(bv) if isinstance(bv, Ref) else bv.f[0]
         if not (isinstance(xv, int) or is_sym(xv)): raise Unsupported('max/min over non-integers')
         gt = (xv >= bv) if (isinstance(xv, int) and isinstance(bv, int)) else z3.UGE(tobv(xv, 64), tobv(bv, 64))
         take = M.branch(gt) if op == 'max' else not M.branch(gt)
@@ -2292,3 +2292,86 @@ def _ref_arith(M, fr, n, a):
     while isinstance(x, Ref): x = M.deref(x)
     while isinstance(y, Ref): y = M.deref(y)
     return M.binop({'rem': 'Rem', 'add': 'Add', 'sub': 'Sub', 'mul': 'Mul', 'div': 'Div'}[op], x, y, ty)
+
+@reg(r'^core::num::<impl (u8|u16|u32|u64|u128|usize)>::(div_ceil|next_multiple_of|abs_diff|checked_rem|rem_euclid|div_euclid|is_power_of_two|saturating_mul|ilog2|ilog10|checked_next_multiple_of)$')
+def _uint_ops_more(M, fr, n, a):
+    m = re.match(r'^core::num::<impl (\w+)>::(\w+)$', n); ty, op = m.group(1), m.group(2)
+    x = simp(a[0]); y = simp(a[1]) if len(a) > 1 else None
+    if op in ('div_ceil', 'next_multiple_of', 'checked_rem', 'rem_euclid', 'div_euclid', 'checked_next_multiple_of'):
+        if op in ('checked_rem',) and not is_sym(y) and y == 0: return none()
+        if not is_sym(y) and y == 0: raise Panic('attempt to divide by zero' if 'div' in op else 'attempt to calculate the remainder with a divisor of zero')
+        q = M.binop('Div', x, y, ty); r = M.binop('Rem', x, y, ty)
+        if op == 'div_euclid': return q
+        if op == 'rem_euclid': return r
+        if op == 'checked_rem': return some(r)
+        rz = M.binop('Eq', r, 0, ty)
+        rz = M.branch(rz) if is_sym(rz) else rz
+        if op == 'div_ceil': return q if rz else M.binop('Add', q, 1, ty)
+        if rz: return some(x) if op.startswith('checked') else x
+        up = M.binop('AddWithOverflow', x, M.binop('Sub', y, r, ty), ty)
+        if M.branch(up.f[1]):
+            if op.startswith('checked'): return none()
+            raise Panic('attempt to add with overflow')
+        return some(up.f[0]) if op.startswith('checked') else up.f[0]
+    if op == 'abs_diff':
+        lt = M.binop('Lt', x, y, ty); lt = M.branch(lt) if is_sym(lt) else lt
+        return M.binop('Sub', y, x, ty) if lt else M.binop('Sub', x, y, ty)
+    if op == 'is_power_of_two':
+        if is_sym(x): return z3.And(x != 0, (x & (x - 1)) == 0)
+        return x != 0 and (x & (x - 1)) == 0
+    if op == 'saturating_mul':
+        r = M.binop('MulWithOverflow', x, y, ty)
+        return (1 << INT_W[ty]) - 1 if M.branch(r.f[1]) else r.f[0]
+    if op in ('ilog2', 'ilog10'):
+        if is_sym(x): raise Unsupported('symbolic ' + op)
+        if x == 0: raise Panic('argument of integer logarithm must be positive')
+        return x.bit_length() - 1 if op == 'ilog2' else len(str(x)) - 1
+    raise Unsupported('int op ' + op)
+
+# petgraph: iteration over nodes and neighbours by contract.  node_indices(): every node, in index order (documented).  neighbors(a) /
+# neighbors_directed(a, dir): one item per edge (parallel edges give the neighbour several times), in an unspecified order
+# (explored nondeterministically unless the machine is deterministic).
+def _g_direction(d):
+    """enum Direction { Outgoing = 0, Incoming = 1 }: a unit variant used as a constant prints as its path"""
+    if isinstance(d, Agg) and not d.f and d.name.rsplit('::', 1)[-1] in ('Incoming', 'Outgoing'): return 1 if d.name.endswith('Incoming') else 0
+    dd = simp(d.disc) if isinstance(d, EnumV) else simp(d)
+    if is_sym(dd) or not isinstance(dd, int): raise Unsupported('Direction value %r' % (d,))
+    return int(dd)
+@reg(r'^petgraph::(prelude|stable_graph)::StableGraph::(<.*>::)?node_indices$')
+def _g_node_indices(M, fr, n, a):
+    g = D(M, a[0]); return IterV([Agg('NodeIndex', [i]) for i in range(len(g.f[0].items))])
+@reg(r'^petgraph::(prelude|stable_graph)::StableGraph::(<.*>::)?(neighbors|neighbors_directed|neighbors_undirected)$')
+def _g_neighbors(M, fr, n, a):
+    g = D(M, a[0]); u = _g_nodes(a[1]); op = n.rsplit('::', 1)[1]
+    incoming = False
+    if op == 'neighbors_directed':
+        d = a[2]
+        while isinstance(d, Ref): d = M.deref(d)
+        incoming = _g_direction(d) == 1
+    E = g.f[1].items
+    if op == 'neighbors_undirected': out = [v for (x, v) in E if x == u] + [x for (x, v) in E if v == u]
+    elif incoming: out = [x for (x, v) in E if v == u]
+    else: out = [v for (x, v) in E if x == u]
+    out = out[::-1]       # petgraph walks the adjacency list from the most recently added edge
+    if len(set(out)) > 1 and not M.__dict__.get('toposort_deterministic'): out = hash_order(M, out, 'nbr')
+    return IterV([Agg('NodeIndex', [v]) for v in out])
+@reg(r'^petgraph::(prelude|stable_graph)::StableGraph::(<.*>::)?externals$')
+def _g_externals(M, fr, n, a):
+    g = D(M, a[0]); d = a[1]
+    while isinstance(d, Ref): d = M.deref(d)
+    E = g.f[1].items; nn = len(g.f[0].items)
+    if _g_direction(d) == 1: out = [i for i in range(nn) if not any(v == i for (u, v) in E)]
+    else: out = [i for i in range(nn) if not any(u == i for (u, v) in E)]
+    return IterV([Agg('NodeIndex', [i]) for i in out])
+@reg(r'^petgraph::(prelude|stable_graph)::StableGraph::(<.*>::)?edge_endpoints$')
+def _g_edge_endpoints(M, fr, n, a):
+    g = D(M, a[0]); e = simp(a[1].f[0])
+    if is_sym(e): raise Unsupported('symbolic edge index')
+    if e >= len(g.f[1].items): return none()
+    u, v = g.f[1].items[e]; return some(Agg('()', [Agg('NodeIndex', [u]), Agg('NodeIndex', [v])]))
+@reg(r'^<petgraph::(prelude|stable_graph|graph)::NodeIndex(<.*>)? as std::(cmp::(PartialEq|Ord|PartialOrd)|hash::Hash|clone::Clone)>::(eq|ne|cmp|partial_cmp|hash|clone)$')
+def _nodeindex_traits(M, fr, n, a): return NotImplemented
+@reg(r'^petgraph::(prelude|stable_graph|graph)::NodeIndex::(<.*>::)?(index|new)$')
+def _nodeindex_index(M, fr, n, a):
+    if n.endswith('new'): return Agg('NodeIndex', [a[0]])
+    return D(M, a[0]).f[0] if isinstance(a[0], Ref) else a[0].f[0]
